@@ -746,6 +746,7 @@ func runLifeCase(c cfg, seed uint64, o lifeOpts, keys map[string]struct{}) (eval
 	st := append([]*connState(nil), stale...)
 	staleMu.Unlock()
 	var lateWG sync.WaitGroup
+	var lateWakes []*atomic.Int32
 	for _, cs := range st {
 		if ok, _ := waitCond(3*time.Second, func() bool { return atomic.LoadInt32(&cs.state) == 2 }); !ok {
 			continue
@@ -774,7 +775,11 @@ func runLifeCase(c cfg, seed uint64, o lifeOpts, keys map[string]struct{}) (eval
 			if err != nil {
 				lateWG.Done()
 			}
-			_ = cs.c.Wake(nil)
+			// a Wake that is accepted (nil error) has its callback invoked exactly once, open connection or not
+			wruns := new(atomic.Int32)
+			if werr := cs.c.Wake(func(gnet.Conn, error) error { wruns.Add(1); return nil }); werr == nil {
+				lateWakes = append(lateWakes, wruns)
+			}
 			_ = cs.c.Close()
 		}
 		done := make(chan struct{})
@@ -783,6 +788,23 @@ func runLifeCase(c cfg, seed uint64, o lifeOpts, keys map[string]struct{}) (eval
 		case <-done:
 		case <-time.After(5 * time.Second):
 		}
+		if ok, v := waitCond(3*time.Second, func() bool {
+			for _, w := range lateWakes {
+				if w.Load() == 0 {
+					return false
+				}
+			}
+			return true
+		}); !ok && verdictStuck(v) && !s.shutdownArmed.Load() {
+			mon.violate("C03 Wake callback of an accepted request never invoked", fmt.Sprintf("connection %d was closed (seq %d); Wake(callback) returned nil afterwards but its callback has not run and the loops are idle: %s", cs.tok, cs.closeSeq, v))
+			break // one witness per engine life is enough (each costs a watchdog interval)
+		}
+		for _, w := range lateWakes {
+			if w.Load() > 1 {
+				mon.violate("C03 Wake callback invoked more than once", fmt.Sprintf("connection %d: %d times", cs.tok, w.Load()))
+			}
+		}
+		lateWakes = lateWakes[:0]
 		if d.lateOK.Load() > 0 {
 			mon.violate("C04 asynchronous write on a closed connection completed without error", fmt.Sprintf("connection %d was closed (seq %d); %d late AsyncWrite callbacks got a nil error", cs.tok, cs.closeSeq, d.lateOK.Load()))
 		}
